@@ -75,7 +75,7 @@ class Harness:
             self.failures.append((role, desc, self.model_dict()))
             return False
         if self.ctx.check(z3.Not(bl(cond))):
-            m = self.ctx.solver.model()
+            m = self.ctx.last_model
             self.failures.append((role, desc, self.model_dict(m)))
             # continue under the assumption that it holds (if possible)
             if self.ctx.check(bl(cond)):
@@ -90,7 +90,7 @@ class Harness:
         if cond is True:
             self.covers[label] = self.model_dict()
         elif cond is not False and self.ctx.check(bl(cond)):
-            self.covers[label] = self.model_dict(self.ctx.solver.model())
+            self.covers[label] = self.model_dict(self.ctx.last_model)
         else:
             self.covers.setdefault(label, None)
 
@@ -98,7 +98,7 @@ class Harness:
         if m is None:
             if not self.ctx.check():
                 return {}
-            m = self.ctx.solver.model()
+            m = self.ctx.last_model
         out = {}
         for name, term in self.inputs.items():
             if is_sym(term):
@@ -107,6 +107,9 @@ class Harness:
                     out[name] = v.as_long() if z3.is_bv_value(v) else bool(z3.is_true(v))
                 except Exception:
                     out[name] = str(v)
+        for i, t in enumerate(getattr(self.it, "clock_vars", [])):
+            v = m.eval(t, model_completion=True)
+            out[f"_now{i}"] = v.as_long() if z3.is_bv_value(v) else str(v)
         out["_choices"] = list(getattr(self, "choices", []))
         return out
 
